@@ -39,7 +39,7 @@ ASSUMPTIONS = [
 ]
 
 FUEL = 24
-NL = 4          # request lines per case
+NL = 5          # request lines per case
 TREES = os.path.join(BUILD, 'c11')
 
 
@@ -161,7 +161,9 @@ def model_lines(case):
     kind = Atom(G.entry_kind(case))
     return [proto.line(Atom('C11'), Atom('render'), Atom(m), FUEL, files, case['entry'], kind, data)
             for m in ('inline', 'runtime')] + [proto.line(Atom('C11'), Atom('inh'), files),
-                                               proto.line(Atom('C11'), Atom('kept'), files, case['entry'], kind)]
+                                               proto.line(Atom('C11'), Atom('kept'), files, case['entry'], kind),
+                                               proto.line(Atom('C11'), Atom('render'), Atom('inplace'), FUEL, files,
+                                                          case['entry'], kind, data)]
 
 
 ERRMAP = {'NotFound': 'TemplateNotFound', 'Syntax': 'TemplateSyntaxError', 'Undefined': 'UndefinedError'}
@@ -361,6 +363,23 @@ def shard(arg):
         if lean_inh != G.in_hypothesis(case):
             res.disagreements.append({'stream': 'hypothesis', 'case': case, 'model': repr(lean_inh),
                                       'real': repr(G.in_hypothesis(case)), 'sources': sources(case)})
+        # the Lean specification evaluator (an include is rendered as its target's nodes in place), where
+        # `runtime_eq_spec_partial` speaks (no match template defined in the file set): against the real code
+        sa = answers[NL * i + 4]
+        if sa == 'na':
+            res.count('spec-lean:file-set-has-match-templates')
+        else:
+            so = model_outcome(sa)
+            if so is None:
+                res.count('spec-lean:unmodelled')
+            else:
+                res.streams['spec-lean'] = res.streams.get('spec-lean', 0) + 1
+                res.count('spec-lean:' + (so[0] if so[0] == 'ok' else so[1]))
+                if st.get('include-found') or st.get('include-fallback'):
+                    res.count('spec-lean:with-includes')
+                if so != real['runtime']:
+                    res.disagreements.append({'stream': 'spec-lean', 'case': case, 'model': repr(so)[:600],
+                                              'real': repr(real['runtime'])[:600], 'sources': sources(case)})
         if real.get('kept') is not None:
             ka = answers[NL * i + 3]
             mk = None if ka in ('err', 'fuel') else list(proto.dec(ka))[1:] if ka != '( ok )' else []
